@@ -92,7 +92,7 @@ def build_src(shape, n, name="d", base=None):
         return ("(define (fill-%s i m) (if (= i %d) m (fill-%s (+ i 1) (hash-insert m i (list i)))))\n(define %s (fill-%s 0 (hash 'x %s)))\n"
                 % (name, n, name, name, name, base if base is not None else "7"))
     if shape == "wide-set":
-        return ("(define (fill-%s i m) (if (= i %d) m (fill-%s (+ i 1) (hashset-insert m i))))\n(define %s (fill-%s 0 (hashset 'x %s)))\n"
+        return ("(define (fill-%s i m) (if (= i %d) m (fill-%s (+ i 1) (hashset-insert m i))))\n(define %s (fill-%s 0 (hashset 'x (- 0 %s))))\n"
                 % (name, n, name, name, name, base if base is not None else "7"))
     if shape == "string":
         return "(define %s (make-string %d #\\%s))\n" % (name, n, "a" if base is None else "b")
@@ -513,7 +513,7 @@ def explain(shape, op, verdict, detail, pred, table):
     base = shape[6:].split(",")[0].split("/")[0] if shape.startswith("cycle:") else shape
     involved = list(INVOLVED[op])
     # the value is dropped at the end of every case (engine teardown)
-    if "teardown" in detail or op in ("gc-dead", "drop", "host-drop"):
+    if "teardown" in detail or MOD_BASE.get(op, op) in ("gc-dead", "drop", "host-drop"):
         involved.append("drop-depth")
     if shape in KEYED:
         involved += ["hash", "eq-key-depth"]
